@@ -121,6 +121,25 @@ def check(program: Program, run: Run) -> None:
     run.ob("C18/R1 constructor value list is in unit order", "Interval.__init__", ok, detail=f"{vals}", where=init.loc())
     if not ok:
         run.finding("C18/constructor-order:Interval.__init__", f"the constructor zips units {units} with values {vals}: a component is stored under another unit", where=init.loc(), rule="R1")
+    # the values zipped with the units must be the constructor's own parameters, untouched: arithmetic between components
+    # (carries, float splitting) is value reasoning this check cannot do -- it refuses to decide rather than pass silently
+    pnames = {a.arg for a in init.node.args.args + init.node.args.kwonlyargs}
+    recomputed = []
+    for n in ast.walk(init.node):
+        tgts = []
+        if isinstance(n, ast.Assign):
+            tgts = n.targets
+        elif isinstance(n, (ast.AugAssign, ast.AnnAssign)):
+            tgts = [n.target]
+        for t in tgts:
+            for x in ast.walk(t):
+                if isinstance(x, ast.Name) and x.id in pnames and x.id != init.params[0]:
+                    recomputed.append((x.id, n.lineno))
+    run.ob("C18/R1 components reach the stored fields as supplied (no arithmetic between constructor parameters)", "Interval.__init__", not recomputed,
+           detail=f"{recomputed[:4]}", where=init.loc())
+    if recomputed:
+        raise AnalysisError(f"unsupported construct: Interval.__init__ recomputes its component parameters {sorted({r[0] for r in recomputed})} before storing them "
+                            f"(line {recomputed[0][1]}): whether the carry preserves the supplied values and their sign is arithmetic over runtime values, which this check does not decide")
     # largest / smallest / sign bookkeeping inside the loop
     if zipcall is not None and isinstance(zipcall.target, ast.Tuple) and len(zipcall.target.elts) == 3:
         unit_v, label_v, value_v = [e.id if isinstance(e, ast.Name) else None for e in zipcall.target.elts]
